@@ -99,6 +99,29 @@ async fn run(cases: &str, out: &str, workdir: &str) {
                 quiesce().await;
                 flush_all(&mut w, &cid, &mut procs);
                 writeln!(w, "case {cid}/{pid}: S {}", if r.is_ok() { "ok" } else { "err" }).unwrap();
+            } else if let Some(list) = op.get("burst") {
+                // several processes started while the scheduler is held, some of them dropped from the cache before they run
+                acts::verif::gate_close();
+                let mut res: Vec<(String, bool)> = vec![];
+                for st in list.as_array().unwrap() {
+                    let k = st["start"].as_u64().unwrap() as usize;
+                    let pid = st["pid"].as_str().unwrap();
+                    let mut vars: Vars = Value::Object(Default::default()).into();
+                    vars.set("pid", pid.to_string());
+                    res.push((pid.to_string(), ex.proc().start(&mids[k], &vars).is_ok()));
+                }
+                for _ in 0..50 {
+                    tokio::task::yield_now().await;
+                }
+                for pid in op["evict"].as_array().map(|a| a.clone()).unwrap_or_default() {
+                    engine.verif_evict(pid.as_str().unwrap());
+                }
+                acts::verif::gate_open();
+                quiesce().await;
+                flush_all(&mut w, &cid, &mut procs);
+                for (pid, ok) in res {
+                    writeln!(w, "case {cid}/{pid}: S {}", if ok { "ok" } else { "err" }).unwrap();
+                }
             } else if let Some(adv) = op.get("tick") {
                 acts::verif::clock_advance(adv.as_i64().unwrap());
                 engine.verif_tick();
